@@ -101,7 +101,9 @@ def traced_run(nodes, ctx0, detail="hash", to_file=False, reuse_pipeline=None):
         raw_ok = True
         # every line must be a complete JSON object (flushed, not truncated)
         for fn in ([target] if to_file and target.exists() else sorted(target.glob("*.jsonl")) if target.exists() else []):
-            for line in Path(fn).read_text().splitlines():
+            for line in Path(fn).read_text().split("\n"):
+                if not line:
+                    continue
                 try:
                     json.loads(line)
                 except Exception:
